@@ -5,7 +5,8 @@ import AiocoapModel.Tcp.Frame
 Model of `TcpConnection.data_received` (tcp.py:178-229), `_abort_with`/`_send_message`
 (tcp.py:117-133), `connection_made`/`connection_lost` as far as they write or report
 (tcp.py:137-176), `_TCPPooling._dispatch_incoming`/`_dispatch_error` (tcp.py:269-291) and
-`RFC8323Remote._send_initial_csm`/`_process_signaling`/`abort` (rfc8323common.py:122-194).
+`RFC8323Remote._send_initial_csm`/`_process_signaling`/`abort` (rfc8323common.py:122-194), and
+`_TCPPooling.send_message` (tcp.py:251-265).
 
 This is the code after the fix "stop processing a TCP connection's data once it is aborted or
 released": `_process_signaling` returns right after `self.abort(...)`, a CSM is taken over into
@@ -233,6 +234,27 @@ def session (maxSize : Nat) (chunks : List Bytes) : Conn × List Out :=
   let r0 := connectionMade maxSize
   let r := feedAll r0.1 chunks
   (r.1, r0.2 ++ r.2 ++ (if r.1.closed then connectionLost else []))
+
+-- ---------------------------------------------------------------------------------------------
+-- the sending side of the token interface
+
+/-- `message.opt.no_response or 0` (options.py:44-62, `_single_value_view`): the value of the
+first No-Response option (number 258, a uint), 0 when there is none -/
+def noResponseOf : List Opt → Nat
+  | [] => 0
+  | o :: os => if o.num = 258 then beToNat o.val else noResponseOf os
+
+/-- `_TCPPooling.send_message(message, messageerror_monitor)` (tcp.py:251-265, after the fix
+"keep the No-Response option on requests sent over TCP").  On a response the No-Response option
+is aiocoap's internal copy of the request's option (interfaces.py, `TokenInterface.send_message`):
+the response is dropped when bit `class - 1` of the value is set (`(nr or 0) & (1 << class_ - 1)`),
+otherwise it is sent with the option removed (`message.opt.no_response = None` deletes every
+option 258).  Anything else — requests — is handed to `_send_message` as it is. -/
+def poolSend (m : Msg) : List Out :=
+  if 64 ≤ m.code ∧ m.code < 192 then                      -- `message.code.is_response()`
+    if (noResponseOf m.opts).testBit (m.code / 32 - 1) then []
+    else sendMessage { m with opts := m.opts.filter (fun o => o.num != 258) }
+  else sendMessage m
 
 /-- What of the connection state can still have any effect.  While the transport is open that is
 everything.  Once `close()` was called, `data_received` is never called again and nothing else
